@@ -180,10 +180,14 @@ def render(toks):
     out = []
     line = []
     prev = None
-    for k, t in toks:
+    for idx, (k, t) in enumerate(toks):
         if k == 'ann':
             t = ' ' + t.strip() + ' '
-        if line and not _glue(prev, (k, t)):
+        # a float literal written `0.` is tokenized as integer literal + `.`; when the dot is not followed by an
+        # identifier or a number (method call, field, tuple index, range) it belongs to the literal: no space
+        float_dot = (k == 'p' and t == '.' and prev is not None and prev[0] == 'lit' and prev[1].isdigit()
+                     and not (idx + 1 < len(toks) and (toks[idx + 1][0] in ('id', 'lit') or toks[idx + 1] == ('p', '.'))))
+        if line and not float_dot and not _glue(prev, (k, t)):
             line.append(' ')
         line.append(t)
         prev = (k, t)
